@@ -49,6 +49,15 @@ class ScriptedPythia:
     if a['kind'] == 'rpc':
       raise ScriptedRpcError('scripted rpc failure')
     if a['kind'] == 'other':
+      how = a.get('how')
+      if how == 'surrogate-message':
+        # an error text that cannot be encoded as UTF-8 (e.g. a surrogate-escaped file name)
+        raise AlgorithmFailure('Pythia has encountered an error: bad \ud800 name')
+      if how == 'malformed-decision':
+        # the algorithm answers, but its answer cannot be converted: a suggested parameter without a value
+        d = pc.SuggestConverter.to_decision_proto(pythia.SuggestDecision(suggestions=[vz.TrialSuggestion({'x': 1.0})], metadata=vz.MetadataDelta()))
+        d.suggestions[0].parameters[0].ClearField('value')
+        return d
       raise AlgorithmFailure('Pythia has encountered an error: scripted')
     sugg = []
     for s in a['sugg']:
@@ -63,7 +72,7 @@ class ScriptedPythia:
     self.es_calls += 1
     e = self.es
     if e['kind'] == 'raise':
-      raise AlgorithmFailure('scripted early-stop failure')
+      raise AlgorithmFailure('scripted early-stop failure' + (' bad \ud800 name' if e.get('how') == 'surrogate-message' else ''))
     ds = [pythia.EarlyStopDecision(id=i, reason='r', should_stop=bool(st)) for i, st in e['decisions']]
     return pc.EarlyStopConverter.to_decisions_proto(
         pythia.EarlyStopDecisions(decisions=ds, metadata=self._delta(e.get('delta', []))))
